@@ -52,7 +52,7 @@ func addSpec(s *Spec) {
 	specs[s.ID] = s
 }
 
-var portfolioMain = []string{"p1", "p14", "p15", "p2", "p3", "p4", "p5", "p8"}
+var portfolioMain = []string{"p1", "p12", "p14", "p15", "p2", "p3", "p4", "p5", "p8"}
 var portfolioAll = []string{"p1", "p10", "p11", "p12", "p14", "p15", "p2", "p3", "p4", "p5", "p6", "p7", "p8", "p9"}
 
 func init() {
@@ -85,8 +85,8 @@ func init() {
 		},
 	})
 	addSpec(&Spec{ID: "C06", Title: "every Add/Write/Close history gives one row group per non-empty batch", Level: "exploration",
-		Shapes: []string{"p2", "p5"},
-		Rule: "all histories over {Add, Write} of length <= L (quick 8, thorough 12) then Close, x page sizes 1..4 x 3 codecs on P2 and P5, plus seeded long histories (batches up to 3*page+1) and four histories with batches and pages of 8191..16385 records (uniform and mixed records: level runs with three-byte headers); " +
+		Shapes: []string{"p12", "p2", "p5"},
+		Rule: "all histories over {Add, Write} of length <= L (quick 8, thorough 12) then Close, x page sizes 1..4 x 3 codecs on P2, P5 and P12 (column names with a dot, a space, non-ASCII letters), plus seeded long histories (batches up to 3*page+1) and four histories with batches and pages of 8191..16385 records (uniform and mixed records: level runs with three-byte headers); " +
 			"each checked online against a batch-list model (file valid per C02 checker, row groups = non-empty batches, column content = striping of those batches, read-back = their records); " +
 			"distinct = (shape, codec, page, history); non-trivial = history has a Write with nothing pending, records pending at Close, or a batch >= page size",
 		Require: []string{"class_empty_write_leading", "class_empty_write_middle", "class_empty_write_trailing", "class_empty_write_double", "class_batch_multiple_of_page",
@@ -105,7 +105,7 @@ func init() {
 	addSpec(&Spec{ID: "C09", Title: "a failed write to the destination is always reported", Level: "fault_enumeration",
 		Shapes: portfolioMain,
 		Rule: "workloads = portfolio x 3 codecs x {single-page, multi-page, multi-row-group}; for each, a fault-free run counts the sink writes N and then EVERY k in 0..N-1 is re-run with the k-th sink write failing, " +
-			"in modes transient (only call k fails), sticky, partial (n=len/2 with the error) and full-count (n=len(p) with the error), and again (transient, sticky) against a destination that also offers Flush/Sync/Close/WriteString/ReadFrom; oracle = the API call in progress returns non-nil, no panic; distinct = (workload, k, mode), all non-trivial",
+			"in modes transient (only call k fails), sticky, partial (n=len/2 with the error) and full-count (n=len(p) with the error), and again (transient, sticky) against a destination that also offers Flush/Sync/Close/WriteString/ReadFrom; oracle = the API call in progress returns non-nil, no panic — also not from the calls a caller still makes after the error (the remaining Adds/Writes and Close are executed, their results not judged); distinct = (workload, k, mode), all non-trivial",
 		Require:    []string{"site_leading_magic", "site_page_header", "site_page_body_required", "site_page_body_optional", "site_footer", "site_footer_length", "site_trailing_magic", "cases_with_rich_sink"},
 		Exhaustive: func(r *Run) bool { return true },
 		Extra: func(r *Run, cov map[string]interface{}) {
@@ -114,7 +114,7 @@ func init() {
 	})
 	addSpec(&Spec{ID: "C10", Title: "a failed read or seek never turns into silently wrong rows", Level: "fault_enumeration",
 		Shapes: portfolioMain,
-		Rule: "files as C08 (incl. one reference-written file per shape); a fault-free run counts the source calls N (Read and Seek; thrift reads byte-wise so N is in the thousands) and EVERY k in 0..N-1 is re-run with the k-th call failing, modes (0,err) and (partial,err), " +
+		Rule: "files as C08 (incl. one reference-written file per shape); a fault-free run counts the source calls N (Read and Seek; thrift reads byte-wise so N is in the thousands) and EVERY k in 0..N-1 is re-run with the k-th call failing, modes (0,err), (partial,err) and (0, io.EOF) — a source that ends early —, " +
 			"once with a full-read source, once under chunk-7 fragmentation and once through a source that also offers ReadByte/ReadAt/WriteTo; oracle = error reported by the constructor or Error(), or else rows exactly the file's rows; no panic — also not from one more Scan after Next returned false; distinct = (file, frag, k, mode); non-trivial = the failing call is a seek or reads a page header or page body (faults inside the footer can only end in a constructor error)",
 		Require: []string{"site_seek", "site_footer_length", "site_footer", "site_page_header", "site_page_body_uncompressed", "site_page_body_snappy", "site_page_body_gzip",
 			"outcome_ctor_error", "outcome_iteration_error"},
@@ -246,7 +246,7 @@ func init() {
 		Custom: customC05,
 	})
 	addSpec(&Spec{ID: "C14", Title: "excluded fields are inert and embedding equals inlining", Level: "translation_validation",
-		Rule: "programs = base shapes from the C05 universe that have no C05 finding (quick 150 with <= 4 nodes, thorough 500 with <= 5 nodes) and their decorated variants: an excluded field (rotating over 28 forms: lower-case, blank, underscore, multi-name declarations (all unexported; an unexported name added to the declaration of an exported field), " +
+		Rule: "programs = base shapes from the C05 universe that have no C05 finding (quick 150 with <= 4 nodes, thorough 500 with <= 5 nodes) and their decorated variants: an excluded field (rotating over 30 forms: lower-case, blank, underscore, multi-name declarations (all unexported; an unexported name added to the declaration of an exported field), " +
 			"non-ASCII lower-case, unexported map/pointer-to-struct/anonymous struct (also with tagged inner fields), embedded structs tagged parquet:\"-\", func with named parameters, parquet:\"-\" on string/map/chan/func/time.Time/slice/interface, other tag keys before/after incl. values with escaped quotes, spaces and colons) inserted at a position of a struct at any nesting level, one variant with a field at every position, " +
 			"and variants in which a contiguous run of sibling fields is moved into an embedded struct (quick: 2+1+2 variants per base; thorough: every position and every run, and for one base in twelve every form at every position); one base in four is built a second time with field names numbered per struct (nested structs repeat the names around them; all embeddings); " +
 			"every chunk of struct definitions is additionally generated in ONE process through gen.FromStruct and the output compared with the separate parquetgen processes' output; " +
